@@ -493,15 +493,22 @@ func (b *BasicWorldBuilder) Finish(o *BuildOptions) (b6.World, error) {
 		cores = 1
 	}
 	for _, feed := range stages {
-		toValidate := make(chan Feature, cores)
-		wg.Add(cores)
-		for i := 0; i < cores; i++ {
-			go validate(toValidate)
-		}
-		feed(toValidate, b.features)
-		close(toValidate)
-		wg.Wait()
-		if len(broken) > 0 {
+		// Dropping a broken feature can break the features that refer to it
+		// (an area over a dropped path), so validate again until nothing
+		// more is dropped.
+		for {
+			broken = broken[0:0]
+			toValidate := make(chan Feature, cores)
+			wg.Add(cores)
+			for i := 0; i < cores; i++ {
+				go validate(toValidate)
+			}
+			feed(toValidate, b.features)
+			close(toValidate)
+			wg.Wait()
+			if len(broken) == 0 {
+				break
+			}
 			if o.FailInvalidFeatures {
 				return nil, broken
 			}
